@@ -23,6 +23,10 @@ class AbstractOnlineInterpreter(AbstractInterpreter):
         # forget the input values supplied before the reset
         for var in self.ast.free_vars:
             self.ast.var_object_dict[var] = self.ast.create_var_from_name(var)
+        # ... and what get_value() reads: the data and the results of the last update before the reset
+        self.ast.inputs = dict()
+        self.ast.results = dict()
+        self.updateVisitor.results = dict()
         return
 
     def set_ast(self, ast):
